@@ -3,9 +3,22 @@
 
     [update T_eqb mp rp e cs] is [Entry.update] applied to the candidates [cs]
     (value in the extended integers, optional tag) in order; [better mp a b] is
-    "[a] strictly better than [b]" for the merge policy ([<] for MIN, [>] for MAX). *)
+    "[a] strictly better than [b]" for the merge policy ([<] for MIN, [>] for MAX).
+
+    Reading of the two words of the property that the code fixes (both confirmed on the
+    implementation, both stated below):
+    - a "tag" is a TRUTHY info: [Entry.update] tests [if info and ...], so a candidate whose
+      info is [None], [0], [""], [()] ... is a candidate without tag; the model's [option T]
+      is exactly that: [None] = falsy info, [Some t] = truthy info [t]
+      ([C16_untagged_candidate], [C16_untagged_history], [C16_example_falsy_info]);
+    - the "retained candidates" that [combine] pairs are the retained TAGS: an entry that
+      retains no tag (policy 'none', or only untagged optima) combines to the infinitely bad
+      default whatever value it holds ([C16_combine_no_tags], [C16_combine_of_none_entries],
+      [C16_example_combine_none]);
+    - a table cell ignores a batch made only of infinite candidates ([C16_table_read] is stated
+      through [relevant], the batches holding a finite value). *)
 From Coq Require Import List Bool ZArith.
-From SR Require Import Base.Ext Model.Entry Proofs.EntryProofs.
+From SR Require Import Base.Ext Model.Entry Proofs.EntryProofs Proofs.EntryExtraProofs.
 Import ListNotations.
 
 Section C16.
@@ -44,6 +57,18 @@ Section C16.
   Theorem C16_tags_none : forall mp cs,
     tags (update T_eqb mp RNONE (default_entry mp) cs) = [].
   Proof. exact (entry_tags_none T_eqb). Qed.
+
+  (* a candidate without (truthy) info can improve the value -- the tags are then dropped --
+     and otherwise changes nothing; it never becomes a tag *)
+  Theorem C16_untagged_candidate : forall mp rp (e : entry T) v,
+    update T_eqb mp rp e [(v, None)] =
+      if better mp v (val e) then {| val := v; tags := [] |} else e.
+  Proof. exact (untagged_candidate T_eqb). Qed.
+
+  Theorem C16_untagged_history : forall mp rp cs,
+    Forall (fun c : ext * option T => snd c = None) cs ->
+    tags (update T_eqb mp rp (default_entry mp) cs) = [].
+  Proof. exact (untagged_history T_eqb). Qed.
 
   (* a table cell after any history of writes to any cells: the entry obtained from
      the batches addressed to it that hold a finite value; never written = default *)
@@ -87,6 +112,31 @@ Section C16_combine.
     let r := combine U_eqb mp RALL e1 e2 f in
     In u (tags r) <-> exists a b, In a (tags e1) /\ In b (tags e2) /\ f a b = (val r, Some u).
   Proof. exact (combine_tags_all U_eqb U_eqb_spec). Qed.
+
+  (* 'any': exactly one tag, of an optimal pair, iff some optimal pair is tagged *)
+  Theorem C16_combine_tags_any : forall mp (e1 e2 : entry T) (f : T -> T -> ext * option U),
+    let r := combine U_eqb mp RANY e1 e2 f in
+    (tags r = [] /\ forall a b u, In a (tags e1) -> In b (tags e2) -> f a b <> (val r, Some u)) \/
+    (exists a b u, tags r = [u] /\ In a (tags e1) /\ In b (tags e2) /\ f a b = (val r, Some u)).
+  Proof. exact (combine_tags_any U_eqb). Qed.
+
+  (* 'none': no tags *)
+  Theorem C16_combine_tags_none : forall mp (e1 e2 : entry T) (f : T -> T -> ext * option U),
+    tags (combine U_eqb mp RNONE e1 e2 f) = [].
+  Proof. exact (combine_tags_none U_eqb). Qed.
+
+  (* "pairs of retained candidates" = pairs of retained TAGS: an entry without tags combines to
+     the infinitely bad default, whatever its value and the policy of the result ... *)
+  Theorem C16_combine_no_tags : forall mp rp (e1 e2 : entry T) (f : T -> T -> ext * option U),
+    tags e1 = [] \/ tags e2 = [] -> combine U_eqb mp rp e1 e2 f = default_entry mp.
+  Proof. exact (combine_no_tags U_eqb). Qed.
+
+  (* ... in particular every entry filled under policy 'none' *)
+  Theorem C16_combine_of_none_entries :
+    forall (T_eqb : T -> T -> bool) mp rp mp1 cs1 (e2 : entry T) (f : T -> T -> ext * option U),
+    combine U_eqb mp rp (update T_eqb mp1 RNONE (default_entry mp1) cs1) e2 f = default_entry mp /\
+    combine U_eqb mp rp e2 (update T_eqb mp1 RNONE (default_entry mp1) cs1) f = default_entry mp.
+  Proof. exact (fun T_eqb => combine_of_none_entries T_eqb U_eqb). Qed.
 End C16_combine.
 
 Print Assumptions C16_entry_value.
@@ -101,6 +151,12 @@ Print Assumptions C16_table_cell_is_entry.
 Print Assumptions C16_stale_tags_refuted.
 Print Assumptions C16_combine_opt.
 Print Assumptions C16_combine_tags_all.
+Print Assumptions C16_untagged_candidate.
+Print Assumptions C16_untagged_history.
+Print Assumptions C16_combine_tags_any.
+Print Assumptions C16_combine_tags_none.
+Print Assumptions C16_combine_no_tags.
+Print Assumptions C16_combine_of_none_entries.
 
 (* non-vacuity: a concrete history with ties *)
 Example C16_example :
@@ -108,3 +164,146 @@ Example C16_example :
              [(Fin 2, Some 1%nat); (Fin 1, Some 2%nat); (Fin 1, None); (Fin 1, Some 3%nat); (Fin 5, Some 4%nat)] in
   val e = Fin 1 /\ tags e = [2%nat; 3%nat].
 Proof. split; reflexivity. Qed.
+
+(* MAX with 'any' and with 'none': the first optimal tagged candidate is kept / nothing is *)
+Example C16_example_max :
+  let cs := [(Fin 2, Some 1%nat); (Fin 7, None); (Fin 7, Some 2%nat); (NInf, Some 5%nat); (Fin 7, Some 3%nat)] in
+  update Nat.eqb MAX RANY (default_entry MAX) cs = {| val := Fin 7; tags := [2%nat] |} /\
+  update Nat.eqb MAX RNONE (default_entry MAX) cs = {| val := Fin 7; tags := [] |} /\
+  update Nat.eqb MAX RALL (default_entry MAX) cs = {| val := Fin 7; tags := [2%nat; 3%nat] |}.
+Proof. repeat split. Qed.
+
+(* a falsy info is no tag: [Entry(MIN, ALL).update(Candidate(1, 0))] has value 1 and no infos
+   (the harness encodes the info [0], [""], [()] or [None] as the model's [None]) *)
+Example C16_example_falsy_info :
+  update Nat.eqb MIN RALL (default_entry MIN) [(Fin 1, None)] = {| val := Fin 1; tags := [] |} /\
+  update Nat.eqb MIN RALL {| val := Fin 2; tags := [4%nat] |} [(Fin 1, None)] = {| val := Fin 1; tags := [] |} /\
+  update Nat.eqb MIN RALL {| val := Fin 1; tags := [4%nat] |} [(Fin 1, None)] = {| val := Fin 1; tags := [4%nat] |}.
+Proof. repeat split. Qed.
+
+(* combine: MAX / 'all' over the product of the tag sets; the combinator adds the tags and
+   values them by their product, the pair (2,3) and the pair (3,2) tie *)
+Example C16_example_combine :
+  let e1 := update Nat.eqb MAX RALL (default_entry MAX) [(Fin 4, Some 2%nat); (Fin 4, Some 3%nat); (Fin 1, Some 9%nat)] in
+  let e2 := update Nat.eqb MAX RALL (default_entry MAX) [(Fin 5, Some 3%nat); (Fin 5, Some 2%nat)] in
+  let f := fun a b : nat => (Fin (Z.of_nat (a * b)), if Nat.eqb a b then None else Some (10 * a + b)%nat) in
+  tags e1 = [2%nat; 3%nat] /\ tags e2 = [3%nat; 2%nat] /\
+  combine Nat.eqb MAX RALL e1 e2 f = {| val := Fin 9; tags := [] |} /\
+  combine Nat.eqb MIN RALL e1 e2 f = {| val := Fin 4; tags := [] |} /\
+  combine Nat.eqb MIN RANY e1 e2 (fun a b => (Fin (Z.of_nat (a + b)), Some (10 * a + b)%nat))
+    = {| val := Fin 4; tags := [22%nat] |} /\
+  combine Nat.eqb MAX RALL e1 e2 (fun a b => (Fin (Z.of_nat (a + b)), Some (10 * a + b)%nat))
+    = {| val := Fin 6; tags := [33%nat] |} /\
+  combine Nat.eqb MIN RALL e1 e2 (fun a b => (Fin (Z.of_nat (a + b)), Some (a + b)%nat))
+    = {| val := Fin 4; tags := [4%nat] |} /\
+  combine Nat.eqb MAX RALL e1 e2 (fun a b => (Fin (Z.of_nat (a * b)), Some (10 * a + b)%nat))
+    = {| val := Fin 9; tags := [33%nat] |} /\
+  combine Nat.eqb MIN RALL e1 e2 (fun a b => (Fin (Z.of_nat (a * b)), Some (10 * a + b)%nat))
+    = {| val := Fin 4; tags := [22%nat] |} /\
+  combine Nat.eqb MIN RALL e1 e2 (fun a b => (Fin 0, Some (10 * a + b)%nat))
+    = {| val := Fin 0; tags := [23%nat; 22%nat; 33%nat; 32%nat] |}.
+Proof. repeat split. Qed.
+
+(* two entries filled under 'none' hold 1 and 2, and combine to +inf:
+   [Entry(MIN, NONE)] x [Entry(MIN, NONE)] -> [inf] *)
+Example C16_example_combine_none :
+  let e1 := update Nat.eqb MIN RNONE (default_entry MIN) [(Fin 1, Some 7%nat)] in
+  let e2 := update Nat.eqb MIN RNONE (default_entry MIN) [(Fin 2, Some 8%nat)] in
+  val e1 = Fin 1 /\ val e2 = Fin 2 /\
+  combine Nat.eqb MIN RNONE e1 e2 (fun a b => (Fin 3, Some (a + b)%nat)) = {| val := PInf; tags := [] |} /\
+  combine Nat.eqb MIN RALL e1 e2 (fun a b => (Fin 3, Some (a + b)%nat)) = {| val := PInf; tags := [] |}.
+Proof. repeat split. Qed.
+
+(* a table history on a 2 x (dict) table: writes to two cells in two batches each, a batch of
+   infinite candidates only (ignored: the cell [1;5] is never instantiated), and the hypotheses
+   of [C16_table_read] / [C16_table_unwritten]; an out-of-range list index is an error *)
+Example C16_example_table :
+  let d := [Some 2%nat; None] in
+  let ops := [([0; 7]%nat, [(Fin 3, Some 1%nat); (PInf, Some 2%nat)]);
+              ([1; 5]%nat, [(PInf, Some 3%nat); (NInf, Some 4%nat)]);
+              ([1; 0]%nat, [(Fin 2, Some 5%nat)]);
+              ([0; 7]%nat, [(Fin 3, Some 6%nat); (Fin 8, None)]);
+              ([1; 0]%nat, [(Fin 1, None); (PInf, Some 7%nat)])] in
+  exists tb, run_writes Nat.eqb d MIN RALL [] ops = Some tb /\
+    read MIN tb [0; 7]%nat = {| val := Fin 3; tags := [1%nat; 6%nat] |} /\
+    read MIN tb [1; 0]%nat = {| val := Fin 1; tags := [] |} /\
+    read MIN tb [1; 5]%nat = default_entry MIN /\
+    (forall cs, In ([1; 5]%nat, cs) ops -> has_finite cs = false) /\
+    read MIN tb [1; 3]%nat = default_entry MIN /\
+    run_writes Nat.eqb d MIN RALL [] (ops ++ [([2; 0]%nat, [(Fin 1, Some 1%nat)])]) = None /\
+    run_writes Nat.eqb d MIN RALL [] (ops ++ [([2; 0]%nat, [(PInf, Some 1%nat)])]) = Some tb.
+Proof.
+  eexists. split; [reflexivity|]. repeat split.
+  intros cs [H|[H|[H|[H|[H|[]]]]]]; inversion H; reflexivity.
+Qed.
+
+(** * Tie to the source by translation (dynamic_programming.py, class Entry)
+
+    [Gen/EntryGen.v] is generated from the Python source of [Entry] on every run
+    (translator/entry_gen.py); the theorems of Proofs/EntryGenProofs.v, restated here as Coq
+    prints them, say that every generated method equals the hand-written model [Model/Entry.v]
+    the theorems above are about, for all states and arguments.  [G] = [SR.Gen.EntryGen];
+    [ent] forgets the two policies of a generated state, [mk] puts them back, [cmp]/[crp] map the
+    generated policy enumerations to [merge]/[ret], [ccand] maps a generated [Candidate] to the
+    model's pair. *)
+From SR Require Gen.EntryGen.
+From SR Require Import Proofs.EntryGenProofs.
+
+Theorem C16_gen_entry_default_eq :
+  forall (A : Type) (mp : G.MergePolicy) (rp : G.RetentionPolicy),
+       G.gen_entry_init mp rp = G.Ok (mk mp rp (@default_entry A (cmp mp))).
+Proof. exact @gen_entry_default_eq. Qed.
+Print Assumptions C16_gen_entry_default_eq.
+
+Theorem C16_gen_entry_is_infinite_eq :
+  forall (A : Type) (s : G.entry_state A),
+       G.gen_entry_is_infinite s = G.Ok (s, ext_is_inf (val (ent s))).
+Proof. exact @gen_entry_is_infinite_eq. Qed.
+Print Assumptions C16_gen_entry_is_infinite_eq.
+
+Theorem C16_gen_entry_value_eq :
+  forall (A : Type) (s : G.entry_state A), G.gen_entry_value s = G.Ok (s, val (ent s)).
+Proof. exact @gen_entry_value_eq. Qed.
+Print Assumptions C16_gen_entry_value_eq.
+
+Theorem C16_gen_entry_infos_eq :
+  forall (A : Type) (s : G.entry_state A), G.gen_entry_infos s = G.Ok (s, tags (ent s)).
+Proof. exact @gen_entry_infos_eq. Qed.
+Print Assumptions C16_gen_entry_infos_eq.
+
+Theorem C16_gen_entry_update_eq :
+  forall (A : Type) (eqb : A -> A -> bool) (s : G.entry_state A) (cs : list (G.Candidate A)),
+       G.gen_entry_update eqb s cs =
+       G.Ok
+         (mk (G.entry__merge_policy s) (G.entry__retention_policy s)
+            (update eqb (cmp (G.entry__merge_policy s)) (crp (G.entry__retention_policy s))
+               (ent s) (map ccand cs)), tt).
+Proof. exact @gen_entry_update_eq. Qed.
+Print Assumptions C16_gen_entry_update_eq.
+
+Theorem C16_gen_entry_history_eq :
+  forall (A : Type) (eqb : A -> A -> bool) (mp : G.MergePolicy) (rp : G.RetentionPolicy)
+         (bs : list (list (G.Candidate A))),
+       match G.gen_entry_init mp rp with
+       | G.Ok s => run eqb s bs
+       | G.Err e => G.Err e
+       end =
+       G.Ok
+         (mk mp rp (update eqb (cmp mp) (crp rp) (default_entry (cmp mp)) (map ccand (concat bs)))).
+Proof. exact @gen_entry_history_eq. Qed.
+Print Assumptions C16_gen_entry_history_eq.
+
+Theorem C16_gen_entry_combine_eq :
+  forall (A U : Type) (eqb2 : U -> U -> bool)
+         (combinator : G.Candidate A -> G.Candidate A -> G.Candidate U)
+         (s o : G.entry_state A),
+       G.gen_entry_combine eqb2 s o combinator =
+       G.Ok
+         (s,
+          mk (G.entry__merge_policy s) (G.entry__retention_policy s)
+            (combine eqb2 (cmp (G.entry__merge_policy s)) (crp (G.entry__retention_policy s))
+               (ent s) (ent o) (comb_f combinator (val (ent s)) (val (ent o))))).
+Proof. exact @gen_entry_combine_eq. Qed.
+Print Assumptions C16_gen_entry_combine_eq.
+
+Example C16_gen_entry_example := gen_entry_example.
